@@ -104,7 +104,9 @@ def aggSig (lang : Lang) (g : Graph) (q : AggQ) (ordered : Bool) (m s : Res) : S
     else if m == .error "panic" then "agg-sum-overflow"
     else
       let m' := resMapRows (toReturnOrder q.items) m
+      let noLoss := resMapRows (toReturnOrder q.items) (finishAggWith false lang q (Pipe.bindings g q.core))
       if sh m' == sh s then "agg-key-columns-first"
+      else if sh noLoss == sh s then "typed-column-loses-nulls"
       else
         let asGql := resMapRows (toReturnOrder q.items) (Pipe.execAgg .gql g q)
         if lang == .cypher && q.items.any itemCountProp && sh asGql == sh s then "cypher-count-counts-nulls"
